@@ -11,6 +11,8 @@ import (
 	"fmt"
 	"sort"
 	"strings"
+	gosync "sync"
+	"sync/atomic"
 	"time"
 
 	"github.com/anishathalye/porcupine"
@@ -40,6 +42,7 @@ func (c10) Classes() []sim.Class {
 		cs = append(cs,
 			sim.Class{Name: "registry", Engine: e, Quick: q, Thorough: th, Instrumented: true, RunTimeoutSec: 120},
 			sim.Class{Name: "compiled-handles", Engine: e, Quick: q / 4, Thorough: th / 4, Instrumented: true, RunTimeoutSec: 120},
+			sim.Class{Name: "context-close", Engine: e, Quick: 150, Thorough: 6000, Instrumented: true, RunTimeoutSec: 120},
 		)
 	}
 	return cs
@@ -347,7 +350,136 @@ type planOp struct {
 	look bool // close/isClosed a looked-up handle instead of a held one
 }
 
+// contextClose: the asynchronous close path (close-on-context-done watcher,
+// resources released by a later FailIfClosed): the module must end up closed,
+// unregistered, its name reusable, and notified exactly once however many
+// further calls, explicit closes and runtime closes follow.
+func contextClose(t *tape.Tape, cfg sim.Config) (res sim.Result) {
+	ctx := context.Background()
+	var rc wazero.RuntimeConfig
+	if cfg.Engine == "interpreter" {
+		rc = wazero.NewRuntimeConfigInterpreter()
+	} else {
+		rc = wazero.NewRuntimeConfigCompiler()
+	}
+	rt := wazero.NewRuntimeWithConfig(ctx, rc.WithCloseOnContextDone(true))
+	defer rt.Close(ctx)
+	var mod api.Module
+	k := 1 + t.Choose(4)
+	calls := 0
+	var cancel context.CancelFunc
+	var closers gosync.WaitGroup
+	cause := t.Choose(3)
+	_, err := rt.NewHostModuleBuilder("env").NewFunctionBuilder().WithFunc(func() {
+		calls++
+		if calls == k {
+			switch cause {
+			case 0:
+				cancel()
+			case 1:
+				closers.Add(1)
+				go func() { defer closers.Done(); mod.CloseWithExitCode(ctx, 3) }()
+			case 2:
+				cancel()
+				closers.Add(1)
+				go func() { defer closers.Done(); mod.Close(ctx) }()
+			}
+			for i := 0; i < 200000 && !mod.IsClosed(); i++ {
+				time.Sleep(20 * time.Microsecond)
+			}
+		}
+	}).Export("tick").Instantiate(ctx)
+	if err != nil {
+		panic(err)
+	}
+	m := &wasmb.Module{}
+	tick := m.ImportFunc("env", "tick", nil, nil)
+	m.AddFunc(nil, nil, nil, (&wasmb.Code{}).Loop(wasmb.BlockVoid).Call(tick).Br(0).End().B, "spin")
+	m.AddFunc(nil, []wasmb.ValType{wasmb.I32}, nil, (&wasmb.Code{}).I32Const(5).B, "five")
+	cm, err := rt.CompileModule(ctx, m.Encode())
+	if err != nil {
+		panic(err)
+	}
+	var notifiedN atomic.Int64
+	nctx := experimental.WithCloseNotifier(ctx, experimental.CloseNotifyFunc(func(context.Context, uint32) { notifiedN.Add(1) }))
+	name := tape.Pick(t, []string{"a", ""})
+	mod, err = rt.InstantiateModule(nctx, cm, wazero.NewModuleConfig().WithName(name))
+	if err != nil {
+		panic(err)
+	}
+	var cctx context.Context
+	cctx, cancel = context.WithCancel(ctx)
+	defer cancel()
+	_, callErr := mod.ExportedFunction("spin").Call(cctx)
+	// (which of two racing closers wins decides the exit code: not logged, the trace must be deterministic)
+	res.Logf("cause=%d k=%d name=%q: spin returned an error=%v", cause, k, name, callErr != nil)
+	if callErr == nil {
+		res.Fail("not-closed", "the spinning call returned without error")
+		return
+	}
+	// later use of the closed module: every call must fail, nothing may re-notify
+	for i := t.Choose(4); i > 0; i-- {
+		switch t.Choose(3) {
+		case 0:
+			if _, err := mod.ExportedFunction("five").Call(ctx); err == nil {
+				res.Fail("not-closed", "a call on the closed module succeeded")
+				return
+			}
+		case 1:
+			mod.Close(ctx)
+		case 2:
+			mod.CloseWithExitCode(ctx, 9)
+		}
+	}
+	if !mod.IsClosed() {
+		res.Fail("not-closed", "module not closed after cause %d", cause)
+		return
+	}
+	closers.Wait() // explicit closers have returned
+	if name != "" {
+		// The watcher goroutine sets the closed flag before it releases the
+		// name (the recorded two-phase close); it cannot be joined, so allow
+		// it a generous bounded time before calling the name stuck.
+		for i := 0; i < 100000 && rt.Module(name) != nil; i++ {
+			time.Sleep(20 * time.Microsecond)
+		}
+		if rt.Module(name) != nil {
+			res.Fail("closed-module-still-registered", "lookup(%q) still returns the module closed through the context 2 s after the call returned", name)
+			return
+		}
+		m2, err := rt.InstantiateModule(ctx, cm, wazero.NewModuleConfig().WithName(name))
+		if err != nil {
+			res.Fail("name-not-released", "the name %q of the module closed through the context cannot be taken again: %v", name, err)
+			return
+		}
+		m2.Close(ctx)
+	}
+	if t.Chance(1, 2) {
+		rt.Close(ctx)
+	}
+	closers.Wait() // the closing goroutines have returned: the notification is due
+	if notified := notifiedN.Load(); notified != 1 {
+		res.Fail("close-notification-count", "the module closed through cause %d was notified %d times (expected exactly once)", cause, notified)
+		return
+	}
+	res.Nontrivial = true
+	res.Shape = sim.ShapeOf(fmt.Sprint(cause, k, name))
+	res.Steps = int64(calls)
+	res.Sample = res.Trace
+	return
+}
+
+func firstLine(err error) string {
+	if err == nil {
+		return "<nil>"
+	}
+	return strings.SplitN(err.Error(), "\n", 2)[0]
+}
+
 func (c10) Run(t *tape.Tape, cfg sim.Config) (res sim.Result) {
+	if cfg.Class == "context-close" {
+		return contextClose(t, cfg)
+	}
 	ctx := context.Background()
 	var rc wazero.RuntimeConfig
 	if cfg.Engine == "interpreter" {
